@@ -60,7 +60,10 @@ class Standardiser(PoolDecorator):
         supply = self.target.supply
         by_supply = _clamp(supply - self.backlog, value, supply + self.surplus)
         by_limits = _clamp(self.minimum, by_supply, self.maximum)
-        return type(value)(by_limits)
+        # keep the type of ``value`` unless converting would change the result,
+        # e.g. truncate a fractional limit for an integer demand
+        typed_limits = type(value)(by_limits)
+        return typed_limits if typed_limits == by_limits else by_limits
 
     def __init__(
         self,
